@@ -11,13 +11,16 @@ RULE = ("each case is run twice from the same seed: A with whole-message reads a
         "of 1-20 queries queued before the connection completes, responses of 1..3000 records (up to 64 KiB), USEVC and "
         "TC-upgrade paths. Oracle: per request identical status/callback count/timeouts/record count+TTLs, identical "
         "sequence of TCP messages at the servers, every TCP frame received by a server decodes as a well-formed query, a "
-        "truncated UDP reply is followed by a TCP transmission unless IGNTC. non-trivial = run B had TCP traffic and a "
+        "truncated UDP reply is followed by a TCP transmission unless IGNTC; second stage (sockets workload with UDP and TCP "
+        "would-block): every datagram / de-framed stream message a server receives is exactly one well-formed query. non-trivial = run B had TCP traffic and a "
         "chopping mode active; distinct = distinct (split mode, write mode, wouldblock, batch size class, callback mode)")
 
 
 def own(key):
-    if key.startswith("xport:"):
+    if key.startswith("xport:") or key.startswith("frame:"):
         return PROP
+    if key.startswith("sim:"):
+        return C01.own(key[4:])
     return C01.own(key)
 
 
@@ -25,6 +28,17 @@ def run(tier, seed, scale=1.0):
     t0 = time.time()
     n = int((4000 if tier == "quick" else 400000) * scale)
     res = vdriver.explore(common.spec("simnet", "transport", seed), n, chunk=max(100, n // 128), chunk_timeout=900)
+    # would-block on datagram sockets changes the order and timing of transmissions, so the A/B comparison does not
+    # apply to it; what must still hold is framing: every datagram / stream message that reaches a server is exactly
+    # one well-formed query (sockets workload: seeded UDP and TCP would-block, short writes, query limits per socket)
+    m = int((8000 if tier == "quick" else 600000) * scale)
+    r2 = vdriver.explore(common.spec("simnet", "sockets", seed), m, chunk=max(100, m // 128), chunk_timeout=900)
+    for v in r2.violations:
+        if not v["key"].startswith("frame:"):
+            v["key"] = "sim:" + v["key"]
+    r2.counters = {"sockets_" + k: v for k, v in r2.counters.items()
+                   if k in ("cases", "transmissions", "tx_udp", "tx_tcp", "udp_send_wouldblock", "tcp_write_wouldblock", "tcp_short_write")}
+    res.merge(r2)
     return common.finish(PROP, tier, seed, "exploration", res, own, RULE, t0, min_conclusive=int(2000 * scale),
                          assumptions=["both runs see deterministic servers with fixed delays; virtual time does not advance "
                                       "while a chopped transfer is being completed"])
